@@ -274,6 +274,12 @@ class C19(Prop):
         # the listed deviations first, so that they are exercised on every run
         for law, inp in WITNESSES:
             yield (law, inp)
+        # the bundled tables themselves: every key is the lower-cased identifier it maps to, and the identifier
+        # canonicalises to itself (a slip in one table row is not reachable through identifiers drawn from the values)
+        from packaging.licenses import _spdx
+        for kind, tab in (("license", _spdx.LICENSES), ("exception", _spdx.EXCEPTIONS)):
+            for key in tab:
+                yield ("table_row", {"kind": kind, "key": key})
         k = 0
         while k < n:
             label, inp = self._case(rng)
@@ -289,6 +295,17 @@ class C19(Prop):
                 yield ("case_space_insensitive", {"toks": inp["toks"], "seed": inp["seed"], "seed2": rng.randrange(1 << 30)}); k += 1
 
     def check_law(self, law, inp):
+        if law == "table_row":
+            from packaging.licenses import _spdx
+            tab = _spdx.LICENSES if inp["kind"] == "license" else _spdx.EXCEPTIONS
+            key = inp["key"]
+            row = tab[key]
+            if row["id"].translate(_ASCII_LOWER) != key:
+                return False, f"{inp['kind']} table: key {key!r} maps to the identifier {row['id']!r}"
+            expr = key.upper() if inp["kind"] == "license" else "MIT WITH " + key.upper()
+            want = row["id"] if inp["kind"] == "license" else "MIT WITH " + row["id"]
+            r = real_canon(expr)
+            return r == ("ok", want), f"canonicalize_license_expression({expr!r}) = {r}, expected {want!r}"
         s = input_string(inp)
         toks = ref_tokens(s)
         if max_depth(toks) > 2000:
